@@ -22,6 +22,9 @@ import common
 from common import InfraError, Report
 
 
+SRC_GROUPS = {"C02": ["message"], "C07": ["fsinfo", "device"], "C11": ["txn"], "C14": ["device"], "C16": ["device"], "C19": ["store", "txn"]}
+
+
 class Ctx(object):
     def __init__(self, prop, tier, seed):
         self.prop, self.tier, self.seed = prop, tier, seed
@@ -95,6 +98,11 @@ def main(argv):
                     proofs["broken"].append("leanchecker rejected AdbProofs.Properties." + prop)
         ctx.driver = ctx.new_driver()
         unit.run(ctx)
+        if prop in SRC_GROUPS:
+            # properties whose model functions are tied to the source by refinement theorems over the GENERATED translation (Generated/Src.lean):
+            # validate the translator itself by executing the generated definitions next to the real Python functions
+            from units import srccheck
+            srccheck.check(ctx, SRC_GROUPS[prop])
     except InfraError as exc:
         print("INFRASTRUCTURE FAILURE: %s" % exc)
         return 2
